@@ -23,6 +23,7 @@ type part struct {
 	Scen   string
 	Depths map[string][]int         // tier -> successive deviation bounds
 	Budget map[string]time.Duration // tier -> wall budget for this part
+	BatchN int                      // >0: depth-0 enumeration, instances dispatched in batches of BatchN
 	Inst   map[string]string        // tier -> instance set name passed to the scenario (default: the tier)
 	Test   string                   // enum: test function in the worker binary
 	Env    []string
@@ -310,8 +311,25 @@ func runExplore(b *built, prop string, p part, tier string, fds []finding, known
 		many := len(inst) >= 32
 		_ = many
 		pl.expandIf = func(depth int) bool { return depth >= 2 }
-		for _, ps := range inst {
-			pl.push(&explore.Task{Scen: p.Scen, Params: ps, Depth: d, Expand: pl.expandIf(d), Known: knownFor(fds, prop, p.Scen, ps.Key())})
+		if p.BatchN > 0 {
+			// enumeration part: every instance once; known findings are matched by the driver afterwards
+			var ks []explore.Known
+			for i := range fds {
+				if fds[i].Status == "known" && fds[i].Property == prop {
+					ks = append(ks, explore.Known{Idx: i, Class: fds[i].Class, Msg: fds[i].Msg})
+				}
+			}
+			for i := 0; i < len(inst); i += p.BatchN {
+				j := i + p.BatchN
+				if j > len(inst) {
+					j = len(inst)
+				}
+				pl.push(&explore.Task{Scen: p.Scen, Batch: inst[i:j], Known: ks})
+			}
+		} else {
+			for _, ps := range inst {
+				pl.push(&explore.Task{Scen: p.Scen, Params: ps, Depth: d, Expand: pl.expandIf(d), Known: knownFor(fds, prop, p.Scen, ps.Key())})
+			}
 		}
 		pl.run()
 		if pl.stopErr != nil {
